@@ -81,7 +81,12 @@ def jitter(img, scale, pixelscale=1, oversample=1):
     out = np.abs(np.fft.ifft2(np.fft.fft2(img)*kernel))
     # rescale to preserve input weight (summed in at least double precision:
     # the total of a half precision frame overflows its own type)
-    return out * np.sum(img, dtype=np.result_type(img.dtype, float)) / np.sum(out)
+    total = np.sum(out)
+    if total == 0:
+        # nothing to rescale (an all-zero frame stays all zero)
+        return out
+    # (the ratio is formed first: out * sum(img) overflows for large frames)
+    return out * (np.sum(img, dtype=np.result_type(img.dtype, float)) / total)
 
 
 def smear(img, distance, angle=None, pixelscale=1, oversample=1):
@@ -175,5 +180,10 @@ def smear(img, distance, angle=None, pixelscale=1, oversample=1):
     out = np.abs(np.fft.ifft2(np.fft.fft2(img)*kernel))
     # rescale to preserve input weight (summed in at least double precision:
     # the total of a half precision frame overflows its own type)
-    return out * np.sum(img, dtype=np.result_type(img.dtype, float)) / np.sum(out)
+    total = np.sum(out)
+    if total == 0:
+        # nothing to rescale (an all-zero frame stays all zero)
+        return out
+    # (the ratio is formed first: out * sum(img) overflows for large frames)
+    return out * (np.sum(img, dtype=np.result_type(img.dtype, float)) / total)
 
